@@ -648,12 +648,22 @@ class _CopyProp:
         # statement holding a use may store into the same field AFTER evaluating the use (x.f = g(alias))
         last = max(k for k, s in enumerate(rest) if any(isinstance(n, ast.Name) and n.id == x for n in ast.walk(s)))
         for k_, s in enumerate(rest[:last + 1]):
-            if k_ == last and isinstance(s, ast.If) and not any(
-                    isinstance(n, ast.Name) and n.id == x for b in s.body + s.orelse for n in ast.walk(b)):
-                # the last use sits in the test of this `if`: what its branches do comes after the use
-                if _disturbs(ast.Expr(value=s.test), names, attrs, subs):
-                    return False
-                continue
+            if k_ == last and isinstance(s, ast.If):
+                # the last uses sit in the tests of this if / elif chain: the tests are evaluated one after the other
+                # with no branch body in between (a body runs only after the test that selects it, and ends the chain)
+                tests, bodies, cur_ = [], [], s
+                while True:
+                    tests.append(cur_.test)
+                    bodies.extend(cur_.body)
+                    if len(cur_.orelse) == 1 and isinstance(cur_.orelse[0], ast.If):
+                        cur_ = cur_.orelse[0]
+                    else:
+                        bodies.extend(cur_.orelse)
+                        break
+                if not any(isinstance(n, ast.Name) and n.id == x for b in bodies for n in ast.walk(b)):
+                    if any(_disturbs(ast.Expr(value=t_), names, attrs, subs) for t_ in tests):
+                        return False
+                    continue
             if self._disturbing_before_use(s, x, names, attrs, subs):
                 return False
         # ordered walk: once a statement has stored into a field / item the expression reads (x = a.f ... a.f = v),
@@ -785,6 +795,30 @@ def _search_loops(tree) -> int:
                         count += 1
                         continue
                 i += 1
+    # N7b  for e in C: if cond: return e      followed by `return None` (or the end of the function)
+    #      ->  return next((e for e in C if cond), None)
+    for fn in ast.walk(tree):
+        if not isinstance(fn, (ast.FunctionDef, ast.AsyncFunctionDef)):
+            continue
+        blk = fn.body
+        for i, lp in enumerate(blk):
+            if isinstance(lp, ast.For) and not lp.orelse and isinstance(lp.target, ast.Name) and len(lp.body) == 1 \
+                    and isinstance(lp.body[0], ast.If) and not lp.body[0].orelse and len(lp.body[0].body) == 1 \
+                    and isinstance(lp.body[0].body[0], ast.Return) and isinstance(lp.body[0].body[0].value, ast.Name) \
+                    and lp.body[0].body[0].value.id == lp.target.id:
+                rest = blk[i + 1:]
+                tail_none = (not rest) or (len(rest) == 1 and isinstance(rest[0], ast.Return) and (
+                    rest[0].value is None or (isinstance(rest[0].value, ast.Constant) and rest[0].value.value is None)))
+                if tail_none:
+                    gen = ast.GeneratorExp(elt=ast.Name(id=lp.target.id, ctx=ast.Load()), generators=[
+                        ast.comprehension(target=lp.target, iter=lp.iter, ifs=[lp.body[0].test], is_async=0)])
+                    new = ast.Return(value=ast.Call(func=ast.Name(id='next', ctx=ast.Load()),
+                                                    args=[gen, ast.Constant(value=None)], keywords=[]))
+                    ast.copy_location(new, lp)
+                    ast.fix_missing_locations(new)
+                    blk[i:] = [new]
+                    count += 1
+                    break
     return count
 
 
@@ -1011,6 +1045,51 @@ def _setdefault_on_fresh_dict(tree) -> int:
 
 
 
+# ---------------------------------------------------------------------------------------------- N17
+def _append_loops(tree) -> int:
+    """T = [] ; for v in C: [if c:] T.append(E)     ->     T = [E for v in C [if c]]      (T a name or an attribute;
+    T occurs in the loop only as the receiver of that append)"""
+    count = 0
+    for parent in ast.walk(tree):
+        for fld in ('body', 'orelse', 'finalbody'):
+            blk = getattr(parent, fld, None)
+            if not (isinstance(blk, list) and blk and isinstance(blk[0], ast.stmt)):
+                continue
+            i = 0
+            while i + 1 < len(blk):
+                a, lp = blk[i], blk[i + 1]
+                ok = isinstance(a, ast.Assign) and len(a.targets) == 1 and isinstance(a.targets[0], (ast.Name, ast.Attribute)) \
+                    and ((isinstance(a.value, ast.List) and not a.value.elts) or
+                         (isinstance(a.value, ast.Call) and isinstance(a.value.func, ast.Name) and a.value.func.id == 'list'
+                          and not a.value.args)) \
+                    and isinstance(lp, ast.For) and not lp.orelse and len(lp.body) == 1
+                if ok:
+                    tdump = ast.dump(a.targets[0]).replace('Store()', 'Load()')
+                    inner = lp.body[0]
+                    cond = None
+                    if isinstance(inner, ast.If) and not inner.orelse and len(inner.body) == 1:
+                        cond, inner = inner.test, inner.body[0]
+                    if isinstance(inner, ast.Expr) and isinstance(inner.value, ast.Call) and isinstance(inner.value.func, ast.Attribute) \
+                            and inner.value.func.attr == 'append' and len(inner.value.args) == 1 and not inner.value.keywords \
+                            and ast.dump(inner.value.func.value) == tdump:
+                        elt = inner.value.args[0]
+                        others = [lp.iter, elt] + ([cond] if cond is not None else [])
+                        mentions = any(ast.dump(x) == tdump for o in others for x in ast.walk(o))
+                        if not mentions and not any(isinstance(x, (ast.Yield, ast.Await, ast.NamedExpr)) for o in others for x in ast.walk(o)):
+                            comp = ast.ListComp(elt=elt, generators=[ast.comprehension(
+                                target=lp.target, iter=lp.iter, ifs=[cond] if cond is not None else [], is_async=0)])
+                            new = ast.Assign(targets=[a.targets[0]], value=comp, type_comment=None)
+                            ast.copy_location(new, a)
+                            ast.copy_location(comp, lp)
+                            ast.fix_missing_locations(new)
+                            blk[i:i + 2] = [new]
+                            count += 1
+                            continue
+                i += 1
+    return count
+
+
+
 def normalize(tree: ast.Module, inline: bool = True) -> ast.Module:
     ninl = 0
     if inline:
@@ -1032,6 +1111,7 @@ def normalize(tree: ast.Module, inline: bool = True) -> ast.Module:
     n.count += _search_loops(tree)
     n.count += _raise_split_and_unpeel(tree)
     n.count += _setdefault_on_fresh_dict(tree)
+    n.count += _append_loops(tree)
     cp = _CopyProp()
     for f in [x for x in ast.walk(tree) if isinstance(x, (ast.FunctionDef, ast.AsyncFunctionDef))]:
         for _ in range(3):
